@@ -7,6 +7,7 @@ import Dawgs.Proofs.C07RoundExpr4
 import Dawgs.Proofs.C07Yield2
 import Dawgs.Proofs.C07RoundPat
 import Dawgs.Proofs.C07YieldPat
+import Dawgs.Proofs.C07RoundQuery
 import Dawgs.Spec.C07
 namespace Dawgs.C07.Props
 open Dawgs.C07 Dawgs.C07.Inst Dawgs.Grammar Dawgs.C08
@@ -57,6 +58,32 @@ example : wPart (wfExpr 2) { var := some "p", shortest := false, allShortest := 
     .node (some "g") ["Group"] none,
     .rel none [] 0 none none,
     .node none [] none] } = true := by decide +kernel
+
+/-! ### whole queries -/
+
+/-- `emit_build_fixed`: the visitor model `build` (QueryVisitor … ExpressionVisitor, on the regenerated tables) rebuilds EXACTLY the
+model `q` from the canonical derivation `tQuery q` the emitter follows, for every well-formed query model: single-part and
+multi-part queries made of MATCH / OPTIONAL MATCH (comma-separated pattern parts, WHERE), UNWIND, CREATE, DELETE / DETACH
+DELETE, REMOVE, SET (=, +=, labels), MERGE with ON CREATE / ON MATCH actions, WITH (projection body + WHERE) and RETURN
+(DISTINCT, items with AS, ORDER BY asc/desc, SKIP, LIMIT), over the proved pattern and expression layers -/
+theorem emit_build_fixed (f : Nat) (q : Query) (hw : wQuery (wfExpr f) q = true) :
+    build N (tQuery N (treeOfExpr N f) q) = .ok q :=
+  build_ok names_ok _ _ (treeOfExpr_ok names_ok f) q hw
+
+/-- non-vacuity: `MATCH (a:User)-[r:MemberOf*1..]->(g:Group) WHERE a.name = $n WITH g, count(*) AS c WHERE c > 1
+MATCH (g)<-[:AdminTo]-(x) SET x.seen = true RETURN DISTINCT x.name AS name ORDER BY name DESC SKIP 1 LIMIT 10` -/
+example : wQuery (wfExpr 2) (.multi
+    [{ reading := [.match_ false [{ var := none, shortest := false, allShortest := false, els := [
+          .node (some "a") ["User"] none, .rel (some "r") ["MemberOf"] 1 (some (some 1, none)) none, .node (some "g") ["Group"] none] }]
+          (some (.cmp (.prop (.var "a") "name") [("=", .param "n")]))],
+       updating := [],
+       withProj := { distinct := false, items := [(.var "g", none), (.fn false [] "count" [.star], some "c")], order := none, skip := none, limit := none },
+       withWhere := some (.cmp (.var "c") [(">", .lit (.int 1))]) }]
+    { reading := [.match_ false [{ var := none, shortest := false, allShortest := false, els := [
+          .node (some "g") [] none, .rel none ["AdminTo"] 0 none none, .node (some "x") [] none] }] none],
+      updating := [.set [{ left := .prop (.var "x") "seen", op := "=", right := .expr (.lit (.bool true)) }]],
+      ret := some { distinct := true, items := [(.prop (.var "x") "name", some "name")], order := some [(false, .var "name")],
+                    skip := some (.lit (.int 1)), limit := some (.lit (.int 10)) } }) = true := by decide +kernel
 
 /-- non-vacuity: `n.a = 1 AND NOT (m.b IN [1, 2] OR count(*) > 0)` is well-formed at depth 3 -/
 example : wfExpr 3 (.conj [.cmp (.prop (.var "n") "a") [("=", .lit (.int 1))],
